@@ -107,6 +107,9 @@ structure RV (GA DPT Pay Val : Type) where
   gas : List GA                      -- group_addresses()
   dptClass : Option DPT              -- `dpt_class`
   fromKnx : Pay → DRes Val           -- the bound `from_knx`
+  /-- the decoded value is Python's `None` (RemoteValueBinaryOperationMode decodes a foreign mode to `None`),
+  which `_value` cannot tell from "no value yet" -/
+  isNone : Val → Bool := fun _ => false
 
 /-- `_value`, `_payload`, and the destination/kind/payload of the stored `telegram`
 (the stored telegram object itself also carries `decoded_data`; `Telegram.__eq__` ignores it). -/
@@ -141,7 +144,8 @@ def RV.process (rv : RV GA DPT Pay Val) (st : RVState GA Pay Val) (t : Telegram 
       | .other => .error .other
       | .ok v =>
         if st.value.isNone || alwaysCallback || st.value != some v then
-          .ok ({ value := some v, payload := some t.payload, telegram := some (t.dst, t.kind, t.payload) },
+          .ok ({ value := if rv.isNone v then none else some v, payload := some t.payload,
+                 telegram := some (t.dst, t.kind, t.payload) },
                ⟨true, some v⟩)
         else .ok ({ st with payload := some t.payload }, ⟨true, none⟩)
 
@@ -212,7 +216,9 @@ def handle : List String → String
         let decode : Nat → Unit → DRes Nat := fun _ _ => dtblR
         let table : Table Nat Nat := match tblc with | some c => [(0, c)] | none => []
         let t : Telegram Nat Nat Unit Nat := { dst := if grp == "1" then some 0 else none, kind := kind, payload := () }
-        let rv : RV Nat Nat Unit Nat := { gas := if inrv == "1" then [0] else [], dptClass := rvc, fromKnx := fun _ => drv }
+        -- value id 0 is Python's None
+        let rv : RV Nat Nat Unit Nat :=
+          { gas := if inrv == "1" then [0] else [], dptClass := rvc, fromKnx := fun _ => drv, isNone := fun v => v == 0 }
         let st : RVState Nat Unit Nat := { value := prior, payload := none, telegram := none }
         match setDecodedData decode table t with
         | .error .assertion => "!assert"
